@@ -389,6 +389,9 @@ MUTATIONS = [
         # the requested center is outside of the spectrum of this OMS: nothing is available around it
         return 0
 """, "")]},
+    {'id': 'c05-revert-lumped-at-fibre-end-refused', 'props': ['C05'], 'tests': 'tests/test_science_utils.py tests/test_parser.py',
+     'desc': 'revert of the fix: lumped loss positions compared in km with 1e-3 * length (a loss exactly at the end may pass)',
+     'edits': [('gnpy/core/elements.py', "(z_lumped_losses * 1e3 < self.params.length)", "(z_lumped_losses < 1e-3 * self.params.length)")]},
     {'id': 'c11-revert-explicit-ispart', 'props': ['C11'], 'tests': 'tests/test_path_computation_functions.py tests/test_disjunction.py',
      'desc': 'revert of fix e50d35fe: explicit route returned without checking the listed nodes are crossed in order',
      'edits': [('gnpy/topology/request.py', "    if total_path is not None and ispart(nodes_list, total_path):",
